@@ -120,6 +120,15 @@ def check_pair(case):
     if not abs(back - x) <= tol2:
         r.bad(f"C06:roundtrip:{a}->{b}->{a}", f"{x!r} {a} -> {b} -> {a} = {back!r} (diff {abs(back - x):.3g} > {tol2:.3g})",
               x=x, via=got, back=back)
+    # history on one object: read in the display unit, re-display in place, read again (conversion by <<)
+    q = Unit[a](x)
+    first = q.unit_value
+    q << Unit[b]
+    second = q.unit_value
+    if first != x and not abs(first - x) <= tol2:
+        r.bad(f"C06:unit_value:{a}", f"Unit.{a}({x!r}).unit_value = {first!r}")
+    if second != got:
+        r.bad(f"C06:redisplay:{a}->{b}", f"{x!r} {a} re-displayed in {b}: unit_value {second!r}, but >> {b} gives {got!r}")
     r.info["rt_ulps"] = abs(back - x) / max(ref.ulp(x), 5e-324) if x != 0 else 0.0
     return r
 
